@@ -297,7 +297,7 @@ static void c12_relations(Context& cx)
             T xs[64];
             if (sizeof(T) == 4)
             {
-                const uint64_t stride = thorough ? 1 : 4099;
+                const uint64_t stride = thorough ? 67 : 4099;
                 const uint64_t phase = mix64(cx.opt.seed ^ hash_str(r.a)) % stride;
                 uint64_t k = 0;
                 for (uint64_t u = phase; u < (1ull << 32); u += stride * n, ++k)
@@ -369,7 +369,7 @@ static void c12_domains(Context& cx)
                 continue;
             const int n = e->lanes;
             T xs[64], out[64];
-            const uint64_t stride = sizeof(T) == 4 ? (thorough ? 1 : 2053) : 1;
+            const uint64_t stride = sizeof(T) == 4 ? (thorough ? 61 : 2053) : 1;
             const uint64_t count = sizeof(T) == 4 ? (1ull << 32) / stride : (thorough ? 20000000ull : 400000ull);
             const uint64_t phase = mix64(cx.opt.seed ^ hash_str(d.fn));
             for (uint64_t k = 0; k < count; k += n)
